@@ -53,7 +53,7 @@ Extraction "model.ml"
   to_value from_value from_text from_sj into_sj ser_spec de_ok detour_ok collapse nodup_keysb
   nums64 wf_nums wf_sj sj_eqb K3 K4 dbl valid_number is_int64 num_pres
   (* json! macro *)
-  expand tokens text value_of lexical_f64 dec_of_Z
+  expand tokens text value_of lexical_f64 lexical_float dec_of_Z
   (* serde, typed data (C16) *)
   to_value_ref from_value_ref ser_sj from_sj_ref shape_ref shape_sj_ref shape_eqb has_type finite_floats
   tser de from_tsj shape_of shape_of_sj fmt_f64_ref fmt_f32_ref fmt_sj_ref de_f64 de_f32 f64_norm f32_norm
